@@ -232,6 +232,18 @@ def run(prop, tier, seed, known):
                     fails.append('octave: multiplying reference and estimate by 2 changes melody scores: %s vs %s' % (dict(m0), dict(m3)))
                 if m0['Raw Pitch Accuracy'] > m0['Raw Chroma Accuracy'] + 1e-12:
                     fails.append('nested: raw pitch above raw chroma accuracy')
+                # the same ordering, and tolerance monotonicity, when the tolerance is passed through evaluate()
+                prev_ = None
+                for ct_ in (25.0, 45.0, 100.0, 200.0):
+                    mt_ = guard('melody.evaluate(cent_tolerance=%s)' % ct_, lambda: melody.evaluate(tt, rf, tt, ef, cent_tolerance=ct_))
+                    if mt_ is None:
+                        break
+                    if mt_['Raw Pitch Accuracy'] > mt_['Raw Chroma Accuracy'] + 1e-12:
+                        fails.append('nested: raw pitch above raw chroma accuracy in evaluate(cent_tolerance=%s): %r > %r (deviations %s cents)'
+                                     % (ct_, mt_['Raw Pitch Accuracy'], mt_['Raw Chroma Accuracy'], dev))
+                    if prev_ is not None and any(mt_[k_] < prev_[k_] - 1e-12 for k_ in ('Raw Pitch Accuracy', 'Raw Chroma Accuracy', 'Overall Accuracy')):
+                        fails.append('nested: a wider cent_tolerance lowers a melody score through evaluate(): %s then %s' % (dict(prev_), dict(mt_)))
+                    prev_ = mt_
                 # the estimate starts later than the reference (a frame at time 0 is padded in): negation still changes nothing
                 lt_ = tt[1:] if len(tt) > 2 else tt
                 le_ = ef[1:] if len(tt) > 2 else ef
@@ -240,6 +252,13 @@ def run(prop, tier, seed, known):
                 if s0_ is not None and s1_ is not None and (abs(s0_['Raw Pitch Accuracy'] - s1_['Raw Pitch Accuracy']) > 1e-9 or abs(s0_['Raw Chroma Accuracy'] - s1_['Raw Chroma Accuracy']) > 1e-9):
                     fails.append('octave/sign: negating the estimated frequencies changes raw pitch / raw chroma accuracy when the estimate starts after time 0: %s vs %s'
                                  % ((s0_['Raw Pitch Accuracy'], s0_['Raw Chroma Accuracy']), (s1_['Raw Pitch Accuracy'], s1_['Raw Chroma Accuracy'])))
+                # optional voicing / reward arrays, each alone and together, with an estimate (or a reference) that starts after time 0: valid input
+                ev_ = (le_ != 0).astype(float)
+                rw_ = np.ones(len(tt))
+                for kw_ in (dict(est_voicing=ev_), dict(ref_reward=rw_), dict(est_voicing=ev_, ref_reward=rw_)):
+                    o_ = guard('melody.evaluate(late-starting estimate, %s)' % sorted(kw_), lambda: melody.evaluate(tt, rf, lt_, le_, **kw_))
+                    if o_ is not None and not all(np.isfinite(v_) and -1e-9 <= v_ <= 1 + 1e-9 for v_ in o_.values()):
+                        fails.append('melody.evaluate(late-starting estimate, %s) out of [0, 1]: %s' % (sorted(kw_), dict(o_)))
                 # the same relations when the estimate lives on its own time base (resampling with interpolation)
                 tt2 = np.arange(2 * nf - 1) * 0.0625
                 ef2 = np.repeat(ef, 2)[:2 * nf - 1]
